@@ -84,6 +84,9 @@ func raftNodeRole(args []string) int {
 				pin := api.PinCid(gen.UCid(ci))
 				pin.Name = vseq
 				pin.Metadata = map[string]string{"vseq": vseq}
+				if ci%2 == 1 {
+					pin.ExpireAt = time.Unix(1500000000+int64(ci), 0) // expired long ago; still a committed entry
+				}
 				method := "LogPin"
 				if kind == "unpin" {
 					method = "LogUnpin"
